@@ -33,6 +33,9 @@ func genC01(r *Rand, tier string, ord int) *Trial {
 	if r.P(0.2) {
 		sp.Conflict, sp.DelFlip = 0, 0
 	}
+	if tier == "thorough" && !many && r.P(0.05) {
+		sp.L = r.Range(61, 400) // deeper bound on the reference length in the thorough tier
+	}
 	sc := genSam(r, sp)
 	o := Opts{Wrap: -1, Start: -1, End: -1, Threads: 1}
 	o.Pad = r.P(0.4)
